@@ -21,7 +21,7 @@ DefaultOf(w) == IF w = "w3" /\ "mb" \in Mints THEN "mb" ELSE "ma"
 Record(op) == hist' = Append(hist, op) /\ n' = n + 1 /\ done' = done
 
 Init ==
-  /\ \E fa \in Pick(Fees), fb \in Pick(Fees) :
+  /\ \E fa \in Fees, fb \in Fees :
        hist = <<[op |-> "cfg",
                  mints |-> [i \in 1..Cardinality(Mints) |-> [name |-> IF i = 1 THEN "ma" ELSE "mb", fee |-> IF i = 1 THEN fa ELSE fb, policy |-> "min1"]],
                  wallets |-> [i \in 1..Cardinality(Wallets) |-> [name |-> "w" \o ToString(i), default |-> DefaultOf("w" \o ToString(i))]]]>>
